@@ -24,8 +24,6 @@ import (
 	"encoding/json"
 	"errors"
 	"fmt"
-	"os"
-	"runtime/pprof"
 	"sort"
 	"strings"
 	"sync"
@@ -720,13 +718,7 @@ func pick(names []string, idx []int) []string {
 
 func run(r *evid.Run) {
 	ctx := context.Background()
-	if pf := os.Getenv("C12_CPUPROFILE"); pf != "" {
-		if f, err := os.Create(pf); err == nil {
-			_ = pprof.StartCPUProfile(f)
-			defer pprof.StopCPUProfile()
-		}
-	}
-	r.Rule("case = (catalogue image, include set, exclude set, custom-options kept/dropped, known-extensions kept/dropped, allow-imported, copy/in-place); include and exclude sets are ALL subsets of size <= 2 (quick: <= 1 each with the full option grid, plus every (<=1, 2) and (2, <=1) combination with default options) of ALL names of the image (packages, messages, nested messages, map entries, groups, enums, services, methods, extensions, selected well-known names). A case is distinct non-trivial when its filter (image, include, exclude, options) is not contradictory, FilterImage removed at least one element, and all oracles ran on the result")
+	r.Rule("case = (catalogue image, include set, exclude set, custom-options kept/dropped, known-extensions kept/dropped, allow-imported, copy/in-place); include and exclude sets are ALL subsets of size <= 2 (thorough: full option grid except (2,2) which uses default options; quick: <= 1 each with the full option grid, plus every (<=1, 2) and (2, <=1) combination with default options; plus, per image, every not-existing / not-filterable name alone and next to every existing name) of ALL names of the image (packages, messages, nested messages, map entries, groups, enums, services, methods, extensions, selected well-known names). A case is distinct non-trivial when its filter (image, include, exclude, options) is not contradictory, FilterImage removed at least one element, and all oracles ran on the result")
 	r.Assume("the second application for idempotence re-uses the include names and only those exclude names that still exist in the filtered image (an exclude name that was removed makes the second call fail with 'not found' by documented contract)")
 	r.Assume("option VALUES set on surviving descriptors are not counted as references to an excluded custom option or Any payload type (they are data, and stay byte-identical)")
 	r.Assume("known extensions are demanded only for messages that are included or referenced by type (the lower bound of the model); extensions pulled in transitively through other extensions are allowed but not demanded, because the implementation decides them by map iteration order")
@@ -791,7 +783,13 @@ func run(r *evid.Run) {
 			}
 		} else {
 			for _, inc := range subsets {
-				items = append(items, workItem{bi: bi, inc: inc, excs: subsets, grid: optionGrid(bi, true, hasImp(inc)), inPl: true})
+				if len(inc) < 2 {
+					items = append(items, workItem{bi: bi, inc: inc, excs: subsets, grid: optionGrid(bi, true, hasImp(inc)), inPl: true})
+					continue
+				}
+				// (2, <=1) with the full option grid, (2, 2) with default options
+				items = append(items, workItem{bi: bi, inc: inc, excs: small, grid: optionGrid(bi, true, hasImp(inc)), inPl: true})
+				items = append(items, workItem{bi: bi, inc: inc, excs: pairs, grid: optionGrid(bi, false, hasImp(inc)), inPl: true})
 			}
 		}
 	}
@@ -913,7 +911,7 @@ func run(r *evid.Run) {
 					}
 				}
 				r.SampleEvery(i*131+caseNo, 4999, func() any { return fc })
-				if it.inPl && fnd == nil && ex.Contradictory == "" {
+				if it.inPl && fnd == nil && ex.Contradictory == "" && (!r.Quick() || !(fc.NoCustom || fc.NoKnown)) {
 					if ex.MustFail == "" && !ex.Exact && ferr == nil {
 						st.inc("in_place_skipped_order_dependent")
 						continue
